@@ -15,6 +15,8 @@ import (
 	"github.com/MixinNetwork/mixin/common"
 	"github.com/MixinNetwork/mixin/config"
 	"github.com/MixinNetwork/mixin/crypto"
+	"github.com/MixinNetwork/mixin/kernel/internal/clock"
+	"github.com/MixinNetwork/mixin/p2p"
 	"github.com/MixinNetwork/mixin/verifmc"
 	"github.com/MixinNetwork/mixin/verifmc/fixc"
 )
@@ -70,7 +72,7 @@ type c24Agg struct {
 }
 
 type c24Event struct {
-	kind string // expire | retry | reset | overflow | defer-cutoff | defer-dup
+	kind string // expire | retry | reset | overflow | defer-cutoff | defer-dup | hook-finalized | hook-unbroadcast | hook-slow
 	k    int    // aggregator index (retry)
 	mask uint8  // owned (reset) or the deferred proposal's transactions
 }
@@ -109,8 +111,9 @@ type c24Tier struct {
 	// oldestNarrow: the oldest age is enumerated only where it adds something, a
 	// proposal sharing a transaction with another aged proposal, and only under expiry
 	oldestNarrow bool
-	companions   int // most unguarded companions of a proposal deferred by the duplicate guard
-	reps         int // executions of a case whose outcome may depend on Go's map iteration order
+	pairStates   []int // state alphabet of configurations with two or more proposals (nil: states)
+	companions   int   // most unguarded companions of a proposal deferred by the duplicate guard
+	reps         int   // executions of a case whose outcome may depend on Go's map iteration order
 }
 
 // c24Inst is one real node whose four transactions are in a fixed ledger/cache
@@ -129,7 +132,9 @@ type c24Inst struct {
 	base     int
 	tier     *c24Tier
 	baseline map[string]string
-	live     []*common.Snapshot // snapshot of proposal k of the installed configuration
+	live     []*common.Snapshot             // snapshot of proposal k of the installed configuration
+	spmGood  map[crypto.Hash]*p2p.SyncPoint // every peer at our final round: broadcasted and caught up
+	spmAhead map[crypto.Hash]*p2p.SyncPoint // every peer two rounds ahead: we are slow in catching up
 }
 
 func c24AgeNs(a uint64) uint64 {
@@ -193,6 +198,28 @@ func c24NewInst(tier *c24Tier, st [c24NTx]int) (*c24Inst, error) {
 		}
 	}
 	in.baseline = m.Store.VerifDumpCache("CACHETRANSACTION")
+	// sync points for the events that go through cosiHook -> checkActionSanity
+	final := in.real.FinalRound
+	in.spmGood, in.spmAhead = map[crypto.Hash]*p2p.SyncPoint{}, map[crypto.Hash]*p2p.SyncPoint{}
+	for _, cn := range m.Node.NodesListWithoutState(clock.NowUnixNano(), true) {
+		if cn.IdForNetwork != m.Node.IdForNetwork {
+			in.spmGood[cn.IdForNetwork] = &p2p.SyncPoint{NodeId: cn.IdForNetwork, Number: final.Number, Hash: final.Hash}
+			in.spmAhead[cn.IdForNetwork] = &p2p.SyncPoint{NodeId: cn.IdForNetwork, Number: final.Number + 2, Hash: final.Hash}
+		}
+	}
+	in.chain.running = true
+	old := m.Node.SyncPointsMap
+	m.Node.SyncPointsMap = in.spmGood
+	good := m.Node.CheckBroadcastedToPeers() && m.Node.CheckCatchUpWithPeers() && m.Node.GetRemovingOrSlashingNode(m.Node.IdForNetwork) == nil
+	m.Node.SyncPointsMap = in.spmAhead
+	ahead := m.Node.CheckBroadcastedToPeers() && !m.Node.CheckCatchUpWithPeers()
+	m.Node.SyncPointsMap = nil
+	none := !m.Node.CheckBroadcastedToPeers()
+	m.Node.SyncPointsMap = old
+	if !good || !ahead || !none {
+		m.Close()
+		return nil, fmt.Errorf("sync point fixtures do not drive checkActionSanity as intended: %v %v %v", good, ahead, none)
+	}
 	return in, nil
 }
 
@@ -363,6 +390,10 @@ func (in *c24Inst) enabled(cfg []c24Agg) []c24Event {
 	for n := free; n != 0; n = (n - 1) & free {
 		evs = append(evs, c24Event{kind: "overflow", mask: n})
 		evs = append(evs, c24Event{kind: "defer-cutoff", mask: n})
+		evs = append(evs, c24Event{kind: "hook-unbroadcast", mask: n})
+		evs = append(evs, c24Event{kind: "hook-slow", mask: n})
+		// enabled only when n holds a finalized transaction (c24HookFinalizedOK)
+		evs = append(evs, c24Event{kind: "hook-finalized", mask: n})
 	}
 	// a proposal with at least one transaction the guard protects, the rest not in flight
 	for g := guarded; g != 0; g = (g - 1) & guarded {
@@ -449,6 +480,51 @@ func c24Runs(t *c24Tier, cfg []c24Agg, e c24Event) bool {
 	return true
 }
 
+// c24EventOK: state dependent driver precondition. hook-finalized needs a
+// finalized transaction in the proposal.
+func c24EventOK(e c24Event, st [c24NTx]int) bool {
+	if e.kind != "hook-finalized" {
+		return true
+	}
+	for i := 0; i < c24NTx; i++ {
+		if e.mask&(1<<uint(i)) != 0 && c24Final(st[i]) {
+			return true
+		}
+	}
+	return false
+}
+
+// alphabet of the referenced transactions of a configuration
+func (t *c24Tier) alphabet(cfg []c24Agg) []int {
+	if len(cfg) >= 2 && t.pairStates != nil {
+		return t.pairStates
+	}
+	return t.states
+}
+
+// c24Planned: number of state assignments under which (cfg, e) is executed.
+func c24Planned(t *c24Tier, cfg []c24Agg, e c24Event, ref uint8) int64 {
+	al := t.alphabet(cfg)
+	pow := func(b, n int) int64 {
+		k := int64(1)
+		for i := 0; i < n; i++ {
+			k *= int64(b)
+		}
+		return k
+	}
+	if e.kind != "hook-finalized" {
+		return pow(len(al), c24Pop(ref))
+	}
+	unfinal := 0
+	for _, s := range al {
+		if !c24Final(s) {
+			unfinal++
+		}
+	}
+	n := c24Pop(e.mask)
+	return pow(len(al), c24Pop(ref)-n) * (pow(len(al), n) - pow(unfinal, n))
+}
+
 var c24Commitments = func() []crypto.Key {
 	ks := make([]crypto.Key, 16)
 	for i := range ks {
@@ -498,6 +574,33 @@ func (in *c24Inst) apply(cfg []c24Agg, e c24Event, judge bool) (fs []c24Finding,
 			}
 			for ch.CachePool.Poll() != nil {
 			}
+		case "hook-finalized", "hook-unbroadcast", "hook-slow":
+			// the queue loop's self proposal goes through the real cosiHook; the
+			// sanity check rejects it because one of its transactions has been
+			// finalized meanwhile / the peers have not our rounds / are ahead
+			deferred = e.mask
+			hs := in.hashes(e.mask)
+			spm := in.spmGood
+			switch e.kind {
+			case "hook-unbroadcast":
+				spm = nil
+			case "hook-slow":
+				spm = in.spmAhead
+			case "hook-finalized":
+				// a finalized transaction first: the validation stops there and
+				// does not persist the cache-only companions listed after it
+				for i, h := range hs {
+					if c24Final(in.st[in.idx[h]]) {
+						hs[0], hs[i] = hs[i], hs[0]
+						break
+					}
+				}
+			}
+			old := ch.node.SyncPointsMap
+			ch.node.SyncPointsMap = spm
+			s := &common.Snapshot{Version: common.SnapshotVersionCommonEncoding, NodeId: ch.ChainId, Transactions: hs}
+			_, err = ch.cosiHook(&CosiAction{Action: CosiActionSelfEmpty, PeerId: ch.ChainId, Snapshot: s})
+			ch.node.SyncPointsMap = old
 		case "defer-cutoff", "defer-dup":
 			deferred = e.mask
 			first := in.now - 1
@@ -768,7 +871,8 @@ func c24Tiers(c *verifmc.Check) []*c24Tier {
 	comps3 := [][2]int{{-1, -1}, {0, -1}, {0, 0}}
 	comps4 := [][2]int{{-1, -1}, {0, -1}, {0, 0}, {2, 2}}
 	if !c.Thorough() {
-		return []*c24Tier{{name: "upto2", states: []int{c24Uc, c24Us, c24Un, c24Fc}, maxAggs: 2, ages: ages4, ageName: names4, comps: comps3, depth2: -1, canon: 1, oldest: 0, oldestNarrow: true, reps: 3, companions: 4}}
+		return []*c24Tier{{name: "upto2", states: []int{c24Uc, c24Us, c24Un, c24Fc}, maxAggs: 2, ages: ages4, ageName: names4, comps: comps3, depth2: -1, canon: 1, oldest: 0, oldestNarrow: true, reps: 3, companions: 4,
+			pairStates: []int{c24Uc, c24Un, c24Fc}}}
 	}
 	small := []int{c24Uc, c24Un, c24Fc}
 	return []*c24Tier{
@@ -784,6 +888,7 @@ type c24Stats struct {
 	resetExcluded, overflowQueued, dupGuarded          atomic.Int64
 	sampled, single, planned                           atomic.Int64
 	orderReps, orderOnly                               atomic.Int64
+	hookQueued, hookFinalQueued                        atomic.Int64
 
 	fmu      sync.Mutex
 	found    map[string]*c24Report
@@ -793,9 +898,14 @@ type c24Stats struct {
 func TestMC_C24(t *testing.T) {
 	c := verifmc.Start(t, "C24", "exploration")
 	defer c.Finish()
-	c.SetRule("real 7-node fixture node; its own Chain is given every configuration of 0..N local proposals (CosiAggregators + CosiVerifiers as cosiSendAnnouncement installs them) over 4 real deposit transactions: every non-empty transaction set per proposal, every overlap the announcement guard admits (shared transaction only with timestamps >= SnapshotRoundGap apart, the later proposal owning the verifier entry), every age and every commitments/responses class per proposal (classes under expiry and under the reset without owned transactions, one age per non-sharing proposal under events that do not read timestamps; quick: the age 2gap+2 only for an incomplete proposal sharing a transaction with an incomplete one aged gap+1, under expiry); x every ledger/cache state of every referenced transaction (unreferenced ones are unfinalized with a cache body, the most observable state); x every enabled event: expireCosiAggregators(now), retryCosiSnapshot(P) per proposal, resetCosiStateForNewRound(owned) for every owned subset of one proposal, AppendSelfEmpty on a full CachePool, cosiSendAnnouncement deferred by the round cutoff and by the duplicate guard (thorough adds every sequence of two events, a wider alphabet and three proposals). After each event the raw queue keys are read and the queue is drained with CacheRetrieveTransactions(255). A case is distinct by (part, transaction states, configuration, event sequence)")
+	c.SetRule("real 7-node fixture node; its own Chain is given every configuration of 0..N local proposals (CosiAggregators + CosiVerifiers as cosiSendAnnouncement installs them) over 4 real deposit transactions: every non-empty transaction set per proposal, every overlap the announcement guard admits (shared transaction only with timestamps >= SnapshotRoundGap apart, the later proposal owning the verifier entry), every age and every commitments/responses class per proposal (classes under expiry and under the reset without owned transactions, one age per non-sharing proposal under events that do not read timestamps; quick: the age 2gap+2 only for an incomplete proposal sharing a transaction with an incomplete one aged gap+1, under expiry; quick: configurations of two proposals use the states {Uc,Un,Fc}, single proposals all four); x every ledger/cache state of every referenced transaction (unreferenced ones are unfinalized with a cache body, the most observable state); x every enabled event: expireCosiAggregators(now), retryCosiSnapshot(P) per proposal, resetCosiStateForNewRound(owned) for every owned subset of one proposal, AppendSelfEmpty on a full CachePool, cosiSendAnnouncement deferred by the round cutoff and by the duplicate guard, cosiHook(self proposal) rejected by checkActionSanity because a transaction of the batch has been finalized meanwhile / the chain is not broadcasted / the node is slow in catching up (thorough adds every sequence of two events, a wider alphabet and three proposals). After each event the raw queue keys are read and the queue is drained with CacheRetrieveTransactions(255). A case is distinct by (part, transaction states, configuration, event sequence)")
 	c.Assume("CoSi maps are built in-package the way cosiSendAnnouncement builds them (no network round trip); the deferred-announcement events run against a copy of the real cache round that holds one earlier snapshot; transactions handed over by the queue loop (overflow / deferred proposals) are not in flight elsewhere except where the duplicate guard is the subject; one node instance serves all cases of one transaction-state vector: its cache database is compared with the baseline image after every case and replaced by an empty one every 256 cases",
 		"expireCosiAggregators walks the aggregator map in Go's randomized iteration order: an expiry case that retires two or more proposals is executed up to 3 times (thorough 8) with the proposals inserted alternately oldest / youngest first (a small Go map is visited in insertion order with probability 7/8, measured), and failing in some execution is the violation; for such a case the determinism gate is 'reproduces within 16 executions' in each of its 5 re-runs instead of 'reproduces in every execution'")
+	// the kernel clock is moved to the fixture's "now" (3.5 days after the
+	// genesis epoch): the events that go through cosiHook stamp the proposal with
+	// clock.Now and ask which node is being removed at that time
+	clock.MockDiff(time.Unix(0, int64(mcNet7.Epoch+uint64(84*time.Hour))).Sub(time.Now()))
+	defer clock.Reset()
 	st := &c24Stats{found: map[string]*c24Report{}, perClass: map[string]int64{}}
 	complete := true
 	var parts []string
@@ -864,12 +974,15 @@ func TestMC_C24(t *testing.T) {
 	c.Set("incomplete_aged_proposals_kept_by_expiry", st.agedKept.Load())
 	c.Set("resets_with_owned_excluded_and_others_requeued", st.resetExcluded.Load())
 	c.Set("overflow_requeues", st.overflowQueued.Load())
+	c.Set("sanity_check_deferrals_with_requeue", st.hookQueued.Load())
+	c.Set("sanity_check_deferrals_for_a_finalized_companion_with_requeue", st.hookFinalQueued.Load())
 	c.Set("duplicate_guard_defers_with_requeue", st.dupGuarded.Load())
 	if complete {
 		c.Require(st.single.Load() == st.planned.Load(), "planned %d single-event cases, executed %d", st.planned.Load(), st.single.Load())
 		c.Require(st.sharedLive.Load() > 0, "no proposal was retired while a later proposal owned one of its transactions")
 		c.Require(st.orderSensitive.Load() > 0, "no retired proposal listed a finalized transaction before a re-queued one")
 		c.Require(st.completeKept.Load() > 0, "expiry never met a complete aged proposal")
+		c.Require(st.hookFinalQueued.Load() > 0 && st.hookQueued.Load() > st.hookFinalQueued.Load(), "cosiHook deferral paths were not exercised: %d %d", st.hookQueued.Load(), st.hookFinalQueued.Load())
 		c.Require(st.resetExcluded.Load() > 0 && st.overflowQueued.Load() > 0 && st.dupGuarded.Load() > 0, "reset / overflow / duplicate-guard paths were not exercised: %d %d %d", st.resetExcluded.Load(), st.overflowQueued.Load(), st.dupGuarded.Load())
 		c.Require(c.OutcomeCount("expire:retired=1:queued=2") > 0 && c.OutcomeCount("expire:retired=0:queued=0") > 0, "expiry outcomes are vacuous")
 	}
@@ -912,10 +1025,7 @@ func c24RunPart(c *verifmc.Check, tier *c24Tier, stats *c24Stats) bool {
 				if !c24Runs(tier, cfg, e) {
 					continue
 				}
-				k := int64(1)
-				for i := 0; i < c24Pop(in.refOf(cfg, []c24Event{e})); i++ {
-					k *= int64(len(tier.states))
-				}
+				k := c24Planned(tier, cfg, e, in.refOf(cfg, []c24Event{e}))
 				planned += k
 				perKind[e.kind] += k
 			}
@@ -927,7 +1037,11 @@ func c24RunPart(c *verifmc.Check, tier *c24Tier, stats *c24Stats) bool {
 		c.Set("tx_state_vectors:"+tier.name, nVec)
 	}
 
-	return c.ParallelN(nVec, "transaction state vectors of part "+tier.name, func(w, vi int) {
+	var stopped atomic.Bool
+	done := c.ParallelN(nVec, "transaction state vectors of part "+tier.name, func(w, vi int) {
+		if stopped.Load() {
+			return
+		}
 		d := verifmc.Digits(radices, int64(vi), nil)
 		var st [c24NTx]int
 		var nonDefault uint8
@@ -1055,6 +1169,12 @@ func c24RunPart(c *verifmc.Check, tier *c24Tier, stats *c24Stats) bool {
 			if e.kind == "overflow" && q != 0 {
 				stats.overflowQueued.Add(1)
 			}
+			if strings.HasPrefix(e.kind, "hook-") && q != 0 {
+				stats.hookQueued.Add(1)
+				if e.kind == "hook-finalized" {
+					stats.hookFinalQueued.Add(1)
+				}
+			}
 			if e.kind == "defer-dup" && q != 0 && ownedBefore&e.mask != 0 {
 				stats.dupGuarded.Add(1)
 			}
@@ -1076,12 +1196,27 @@ func c24RunPart(c *verifmc.Check, tier *c24Tier, stats *c24Stats) bool {
 		}
 		for cj, cfg := range configs {
 			ci, evIndex = cj, 0
-			if ci%64 == 0 && c.Expired("configurations of one state vector") {
+			if ci%16 == 0 && c.Expired("configurations of one state vector") {
+				stopped.Store(true)
 				return
 			}
 			var union uint8
 			for _, a := range cfg {
 				union |= a.set
+			}
+			// transactions whose state is outside the alphabet of this configuration
+			var outside uint8
+			for i := 0; i < c24NTx; i++ {
+				ok := false
+				for _, a := range tier.alphabet(cfg) {
+					ok = ok || a == st[i]
+				}
+				if !ok {
+					outside |= 1 << uint(i)
+				}
+			}
+			if outside&union != 0 {
+				continue
 			}
 			in.install(cfg, false)
 			evs := in.enabled(cfg)
@@ -1091,8 +1226,9 @@ func c24RunPart(c *verifmc.Check, tier *c24Tier, stats *c24Stats) bool {
 					continue
 				}
 				ref := in.refOf(cfg, []c24Event{e})
-				// an unreferenced transaction is only enumerated in its default state
-				if nonDefault&^ref == 0 {
+				// an unreferenced transaction is only enumerated in its default state,
+				// a referenced one in the alphabet of the configuration
+				if nonDefault&^ref == 0 && outside&ref == 0 && c24EventOK(e, st) {
 					runCase(cfg, cs, nil, e)
 				}
 				if tier.depth2 < 0 || len(cfg) > tier.depth2 || len(cfg) == 0 {
@@ -1121,7 +1257,7 @@ func c24RunPart(c *verifmc.Check, tier *c24Tier, stats *c24Stats) bool {
 					if !c24Runs(tier, cfg, e2) {
 						continue
 					}
-					if nonDefault&^in.refOf(cfg, []c24Event{e, e2}) != 0 {
+					if ref2 := in.refOf(cfg, []c24Event{e, e2}); nonDefault&^ref2 != 0 || outside&ref2 != 0 || !c24EventOK(e2, st) {
 						continue
 					}
 					runCase(cfg, cs, []c24Event{e}, e2)
@@ -1129,4 +1265,5 @@ func c24RunPart(c *verifmc.Check, tier *c24Tier, stats *c24Stats) bool {
 			}
 		}
 	})
+	return done && !stopped.Load()
 }
